@@ -670,6 +670,7 @@ func (f *Flat) WalkPath(env *Env) (visited []int, exit int, err error) {
 		}
 	}()
 	seen := map[int]int{}
+	var lastTag *Val
 	maxVisits := 1
 	if f.WalkMaxVisits > 0 {
 		maxVisits = f.WalkMaxVisits
@@ -687,6 +688,15 @@ func (f *Flat) WalkPath(env *Env) (visited []int, exit int, err error) {
 			return visited, cur, nil
 		}
 		if n.Ast != nil && !n.IsCond {
+			// the tag of a switch statement is a node of its own; the case expressions that follow are compared
+			// with its value
+			if te, isExpr := n.Ast.(ast.Expr); isExpr {
+				if v, err := env.Eval(te); err == nil {
+					lastTag = v
+				} else {
+					lastTag = nil
+				}
+			}
 			switch s := n.Ast.(type) {
 			case *ast.ValueSpec:
 				// go/cfg adds each var spec of a declaration as its own node
@@ -757,6 +767,10 @@ func (f *Flat) WalkPath(env *Env) (visited []int, exit int, err error) {
 			return visited, -1, fmt.Errorf("multi-way branch without condition at %s", f.P.pos(n.Ast))
 		}
 		v := env.eval(n.Ast.(ast.Expr))
+		if v != nil && v.C != nil && v.C.Kind() != constant.Bool && lastTag != nil && lastTag.C != nil {
+			// a case expression of a tagged switch
+			v = boolVal(constant.Compare(v.C, token.EQL, lastTag.C))
+		}
 		if v == nil || v.C == nil || v.C.Kind() != constant.Bool {
 			return visited, -1, fmt.Errorf("condition at %s is not decidable", f.P.pos(n.Ast))
 		}
